@@ -4,7 +4,7 @@
     of a config list; [push_ok n es t L false] says: type [t] not yet present and an entry
     of L value bytes still fits. *)
 From SplVerif Require Import Lib.Base Tlv.Model Tlv.Spec Tlv.Ops Tlv.Corollaries.
-From SplVerif Require Import ListView.Model Resolution.Account MetaList.Model MetaList.Proofs MetaList.Stored.
+From SplVerif Require Import ListView.Model Resolution.Account MetaList.Model MetaList.Proofs MetaList.Stored MetaList.Many.
 Local Open Scope N_scope.
 
 Theorem C12_size_formula : forall k, 35 * k + 4 < USIZE_LIMIT -> ml_size_of k = Ok (12 + (4 + 35 * k)).
@@ -79,4 +79,37 @@ Example C12_nonvacuous :
   ml_reload (fst (ml_init (zeros 51) t [m])) t = Ok [m] /\
   is_err (snd (ml_init (zeros 50) t [m])) = true /\ fst (ml_init (zeros 50) t [m]) = zeros 50 /\
   is_err (snd (ml_init (fst (ml_init (zeros 51) t [m])) t [m])) = true.
+Proof. cbv zeta. repeat split; vm_compute; reflexivity. Qed.
+
+(** any number of instructions in one account (no bound: 129, 256, 65 536 ... are instances):
+    [init_all] initialises the lists one after the other, [stored ls] are the TLV entries they
+    become, [total_size] is the sum of what size_of advertises.  With room for all of them every
+    init succeeds and each instruction reads back exactly its own list *)
+Theorem C12_many_instructions : forall ls n,
+  Forall wf_ilist ls -> NoDup (map fst ls) -> total_size ls <= N.of_nat n ->
+  init_all (zeros n) ls = (render n (stored ls), Ok tt) /\
+  forall t ms, In (t, ms) ls -> ml_reload (render n (stored ls)) t = Ok ms.
+Proof. exact many_lists. Qed.
+(** ... on top of any account state, provided the instructions are new to it *)
+Theorem C12_many_instructions_on_any_state : forall ls n es,
+  fits n es -> Forall wf_ilist ls -> NoDup (map fst ls) ->
+  (forall t, In t (map fst ls) -> ~ In t (map fst es)) ->
+  len (enc es) + total_size ls <= N.of_nat n ->
+  init_all (render n es) ls = (render n (es ++ stored ls), Ok tt) /\ fits n (es ++ stored ls).
+Proof. exact init_all_canon. Qed.
+(** ... and with one byte less than the total, the last init is refused and changes nothing *)
+Theorem C12_many_instructions_one_byte_less : forall ls t ms n,
+  Forall wf_ilist (ls ++ [(t, ms)]) -> NoDup (map fst (ls ++ [(t, ms)])) ->
+  N.of_nat n + 1 = total_size (ls ++ [(t, ms)]) ->
+  exists e, init_all (zeros n) (ls ++ [(t, ms)]) = (render n (stored ls), Err e).
+Proof. exact many_lists_one_byte_less. Qed.
+Example C12_many_nonvacuous :
+  let t1 := [x11;x11;x11;x11;x11;x11;x11;x11] in
+  let t2 := [x22;x11;x11;x11;x11;x11;x11;x11] in
+  let m := {| e_disc := x00; e_cfg := zeros 32; e_signer := x01; e_writable := x00 |} in
+  total_size [(t1, [m]); (t2, [])] = 67 /\
+  snd (init_all (zeros 67) [(t1, [m]); (t2, [])]) = Ok tt /\
+  ml_reload (fst (init_all (zeros 67) [(t1, [m]); (t2, [])])) t2 = Ok [] /\
+  ml_reload (fst (init_all (zeros 67) [(t1, [m]); (t2, [])])) t1 = Ok [m] /\
+  is_err (snd (init_all (zeros 66) [(t1, [m]); (t2, [])])) = true.
 Proof. cbv zeta. repeat split; vm_compute; reflexivity. Qed.
